@@ -83,7 +83,7 @@ prop("C09", [H("H06_large", quick={"wall": "140s", "shards": 6, "shard-depth": 3
              H("H09_layout", quick={"wall": "140s", "shards": 8, "param": "maxDocs=1,lite=1,wide=12"}, thorough={"wall": "1500s", "shards": 16, "param": "maxDocs=2,lite=1,wide=24"}),
              H("H09_layout_merged", quick={"wall": "140s", "shards": 8, "param": "lite=1"}, thorough={"wall": "1500s", "shards": 16})])
 VEC = {"vectors": True}
-prop("C14", [H("H14_search", common=dict(VEC), quick={"wall": "160s", "shards": 16, "param": "maxDocs=2,nCat=2,nQueries=2,nSims=2,maxK=3"}, thorough={"wall": "1500s", "shards": 16, "param": "maxDocs=2"})])
+prop("C14", [H("H14_search", common=dict(VEC), quick={"wall": "160s", "shards": 16, "param": "maxDocs=2,nCat=2,nQueries=1,nSims=2,maxK=3"}, thorough={"wall": "1500s", "shards": 16, "param": "maxDocs=2"})])
 prop("C15", [H("H15_vecmerge", common=dict(VEC), quick={"wall": "140s", "shards": 16, "param": "nCat=2,reopen=1,maxDocs=1,secondField=1"}, thorough={"wall": "1500s", "shards": 16})])
 prop("C16", [H("H16_recheck", common=dict(VEC)), H("H16_history", common=dict(VEC), quick={"wall": "140s", "shards": 16, "param": "maxEvents=5"}, thorough={"wall": "1500s", "shards": 16, "param": "maxEvents=7"})])
 prop("C19", [H("H19_faults", common=dict(VEC, param="large=1"), quick={"wall": "140s", "shards": 8}),
@@ -123,6 +123,15 @@ _add("C06", H("H06_merge", quick={"wall": "150s", "shards": 16, "param": "maxDoc
 # the doc-value offset pair of a field section as read by the opened-file loader, full width
 _add("C04", H("K10_dvoffsets"))
 _add("C03", H("K10_dvoffsets"))
+
+# vector batch and plain batch in either order on the pooled builder (C10 under the vectors tag; phantom vector
+# indexes on a plain segment are also a C14 matter)
+_add("C10", H("H10_vec", common={"vectors": True}, quick={"wall": "150s", "shards": 16, "param": "nCat=1,secondField=1"}, thorough={"wall": "1500s", "shards": 16, "param": "nCat=2,secondField=1,bMax=2"}))
+_add("C14", H("H10_vec", common={"vectors": True}, quick={"wall": "150s", "shards": 16, "param": "nCat=1,secondField=1"}, thorough={"skip": True}))
+# sparse vector field: two documents in the first input, one vector choice
+_add("C15", H("H15_vecmerge", common={"vectors": True}, quick={"wall": "150s", "shards": 16, "param": "nCat=1,reopen=0,maxDocs=2,maxDocs1=1,secondField=0"}, thorough={"wall": "1500s", "shards": 16, "param": "nCat=2,reopen=1,maxDocs=2,maxDocs1=1,secondField=1"}))
+# two vector fields with adjacent ids in the cache
+_add("C16", H("H16_fields", common={"vectors": True}, quick={"wall": "150s", "shards": 16, "param": "maxEvents=5"}, thorough={"wall": "1500s", "shards": 16, "param": "maxEvents=7"}))
 
 # thorough wall budgets: the first budgeted run of a property gets 600 s, the others 240 s (a thorough check
 # also repeats the quick configurations, which are exhaustive inside their bounds)
